@@ -27,7 +27,8 @@ M = {
     "po_text_sort": (UT, "    for k in sorted(by_priority.keys()):\n        rdatas = by_priority[k]\n        random.shuffle(rdatas)",
                      "    for k in sorted(by_priority.keys(), key=str):\n        rdatas = by_priority[k]\n        random.shuffle(rdatas)", "procorder"),
     "po_weights_ignored": (UT, "                weight = rdata._processing_weight() or _no_weight\n                if weight > r:", "                weight = total / len(rdatas)\n                if weight > r:", "procorder"),
-    "po_weights_inverted": (UT, "            r = random.uniform(0, total)\n", "            r = total - random.uniform(0, total)\n            rdatas.reverse()\n", "procorder"),
+    "po_weights_inverted": ("dns/rdtypes/IN/SRV.py", "    def _processing_weight(self):\n        return self.weight", "    def _processing_weight(self):\n        return 65535 - self.weight", "procorder"),
+    "po_zero_weight_never": (UT, "_no_weight = 0.1", "_no_weight = 1e9", "procorder"),
     "po_drop_last": (UT, "            del rdatas[n]  # pyright: ignore\n        ordered.append(rdatas[0])", "            del rdatas[n]  # pyright: ignore", "procorder"),
     "po_weighted_unsorted": (UT, "    ordered = []\n    for k in sorted(by_priority.keys()):\n        rdatas = by_priority[k]\n        total",
                              "    ordered = []\n    for k in by_priority.keys():\n        rdatas = by_priority[k]\n        total", "procorder"),
